@@ -354,9 +354,38 @@ def directed_config(rng, required, max_steps, goal_at_once=False, defender=False
 def directed(rng, k):
     """Run the k-th directed scenario; returns (Session, cfg, draw)."""
     kinds = ["eof", "readerr", "quit", "undecodable"]
-    variant = (k // 23) % 2
-    k = k % 23
-    if k == 22:
+    variant = (k // 24) % 2
+    k = k % 24
+    if k == 23:
+        # three required players joining in the order Attacker, Defender, Attacker (agents of one role NOT adjacent in the order of
+        # joining): everybody is paid by role and outcome - both attackers, whichever of them succeeds (variant 0: the first,
+        # variant 1: nobody)
+        cfg, draw = directed_config(rng, 3, 2)
+        A = cfg["coordinator"]["agents"]["Attacker"]
+        g0 = copy.deepcopy(nsgenv.EMPTY_PART)
+        g0["known_hosts"] = ["192.168.1.2"]
+        A["goal"] = dict(g0, description="goal", is_any_part_of_goal_random=False)
+        cfg["coordinator"]["agents"]["Defender"].pop("max_steps", None)
+        cfg["env"]["rewards"] = {"step": -1, "success": 100, "fail": -10}
+        S = CR.Session(cfg, draw=draw)
+        a1, dd, a2 = ("10.2.23.1", 1), ("10.2.23.2", 2), ("10.2.23.3", 3)
+        S.connect(a1); S.connect(dd); S.connect(a2); S.settle()
+        _join(S, a1, "att1", "Attacker"); _join(S, dd, "def", "Defender"); _join(S, a2, "att2", "Attacker"); S.settle()
+        win, dwin = game_msg("ScanNetwork", source_host=ip("192.168.2.2"), target_network={"ip": "192.168.1.0", "mask": 24})
+        lose, dlose = game_msg("ScanNetwork", source_host=ip("192.168.2.2"), target_network={"ip": "192.168.2.0", "mask": 24})
+        fd, dfd = game_msg("FindData", source_host=ip("192.168.2.2"), target_host=ip("192.168.2.2"))
+        for episode in range(2):
+            first_wins = (variant + episode) % 2 == 0
+            if first_wins:
+                S.send(a1, win, dwin); S.settle()
+            else:
+                S.send(a1, lose, dlose); S.settle(); S.send(a1, lose, dlose); S.settle()
+            S.send(a2, lose, dlose); S.settle(); S.send(a2, lose, dlose); S.settle()
+            S.send(dd, fd, dfd); S.settle()
+            for x in (a1, dd, a2):
+                S.send(x, fd, dfd); S.settle()                           # refused: the same reason and reward
+            _reset(S, a1, False); _reset(S, dd, True); _reset(S, a2, False); S.settle()
+    elif k == 22:
         # a Defender with a step limit of its own uses it up while the attacker is still playing: its episode ends there, and what it
         # is told and paid at the end is decided by the attackers' outcome alone (variant 0: nobody succeeds -> Success and the
         # success reward; variant 1: the attacker succeeds afterwards -> Fail)
@@ -495,7 +524,8 @@ def directed(rng, k):
         if variant == 1:
             c = ("fe80::1c", 45019, 0, 3)        # an IPv6 peer: its address is a 4-tuple (host, port, flow info, scope)
         S.connect(c); S.connect(e); S.settle()
-        _join(S, c, "att2", "Attacker"); _join(S, e, "def2", "Defender"); S.settle()
+        # (the name carries an unpaired surrogate - legal JSON text "\\ud83d"; the confirmation echoes what it must)
+        _join(S, c, "att2\ud83d" if variant == 0 else "att2", "Attacker"); _join(S, e, "def2", "Defender"); S.settle()
         _scan(S, c); S.settle()
     elif k == 18:
         # two attackers that control the same hosts: one ends (out of steps) right after looking into a host, then the other
@@ -645,6 +675,11 @@ def directed(rng, k):
                             data={"owner": owner, "id": did, "size": 0, "type": ""})
             S.send(a, t, d); S.settle()
         _scan(S, a); S.settle()
+        if not S.g._episode_ends.get(a):
+            # an action without effect whose datum id carries an unpaired surrogate: recorded, and echoed in the requested trajectory
+            t, d = game_msg("ExfiltrateData", source_host=ip("192.168.2.2"), target_host=ip("213.47.23.195"),
+                            data={"owner": "User1", "id": "report\udc00", "size": 0, "type": ""})
+            S.send(a, t, d); S.settle()
         _reset(S, a, True); S.settle()
     elif k == 13:
         # a Defender that reaches ITS OWN goal (an empty goal is satisfied at its first action) while no attacker succeeds:
